@@ -344,14 +344,14 @@ fn show_iv(v: &[Iv]) -> String {
 const ALLOC_CAP: u64 = 1 << 19; // members we let the real decoder materialise (1024 pages)
 
 fn decode_case(s: &mut Session, group: &'static str, data: &[u8], bias: u32, max: u32) {
-    let spec = spec_decode(data);
     let header = data.first().copied();
     let (bf, height) = match header {
         Some(h) => ([2u64, 4, 8, 32][(h & 3) as usize], ((h >> 2) & 31) as u32),
         None => (2, 0),
     };
     let too_high = header.is_some() && height > max_height(bf);
-    let want: Option<(Vec<Iv>, usize)> = if too_high { None } else { spec.clone().map(|(iv, n)| (clip(&iv, bias, max), n)) };
+    // the reference decoder's u128 node sizes only cover the supported heights (32^32 does not fit)
+    let want: Option<(Vec<Iv>, usize)> = if too_high { None } else { spec_decode(data).map(|(iv, n)| (clip(&iv, bias, max), n)) };
     if let Some((iv, _)) = &want {
         // The real decoder materialises every member's page: skip inputs that denote huge sets.
         let pages: u64 = iv.iter().map(|(a, b)| b / 512 - a / 512 + 1).sum();
@@ -475,7 +475,8 @@ fn run_codec(cfg: &Config, s: &mut Session, rng: &mut Rng) {
     for bf in [2u64, 4, 8, 32] {
         for k in 1..=4u32 {
             let w = bf.pow(k);
-            if w <= 40_000 {
+            // the model's encoder is quadratic in the member count: keep the quick tier to blocks of <= 4096 members
+            if w <= if cfg.thorough() { 40_000 } else { 2_048 } {
                 encode_case(s, &[(0, w - 1)]);
                 encode_case(s, &[(w, 2 * w - 1)]);
                 encode_case(s, &[(0, w - 1), (2 * w, 2 * w)]);
@@ -825,6 +826,7 @@ fn run_sequence<T: Dom>(s: &mut Session, group: &'static str, ops: &[Op]) {
     let mut m: Machine<T> = Machine { real: [IntSet::empty(), IntSet::empty(), IntSet::empty()], refs: [vec![], vec![], vec![]], probes: probes.clone() };
     let mut obs: Vec<String> = vec![];
     let mut hist = String::new();
+    let mut applied = 0usize;
     for op in ops {
         if !hist.is_empty() {
             hist.push(' ');
@@ -870,14 +872,29 @@ fn run_sequence<T: Dom>(s: &mut Session, group: &'static str, ops: &[Op]) {
             Op::Clear(_) | Op::Empty(_) => (vec![], None),
             Op::All(_) => (dom.clone(), None),
         };
+        // Iterating an inverted set walks every excluded value (documented in mod.rs: "iteration of inverted
+        // sets can be extremely slow"): a state whose stored complement is huge is not observable in bounded
+        // time, so the sequence ends before the op that creates it.
+        if m.real[r].is_inverted() && iv_len(&dom) - iv_len(&new) > 3_000_000 {
+            s.count("intset.sequence-cut-before-heavy-inverted-state");
+            break;
+        }
         m.refs[r] = new;
+        applied += 1;
         match ret {
             Ok(ret) => {
                 if let Some(w) = want_ret {
                     s.oracle("intset-insert/remove-return=changed", ret == if w { "t" } else { "f" },
                         || format!("IntSet<{}> ops [{hist}]", T::NAME), || format!("returned {ret}"));
                 }
+                let t0 = std::time::Instant::now();
+                if std::env::var_os("C14_TRACE_ALL").is_some() {
+                    eprintln!("observe: IntSet<{}> ops [{hist}]", T::NAME);
+                }
                 let o = m.observe(s, r, &ret, &hist);
+                if t0.elapsed().as_millis() > 500 && std::env::var_os("C14_TRACE").is_some() {
+                    eprintln!("slow observe {} ms: IntSet<{}> ops [{hist}]", t0.elapsed().as_millis(), T::NAME);
+                }
                 obs.push(o);
             }
             Err(e) => {
@@ -889,7 +906,7 @@ fn run_sequence<T: Dom>(s: &mut Session, group: &'static str, ops: &[Op]) {
         s.count(&format!("intset.op:{}", &op.token()[..1]));
         s.count(&format!("intset.mode:{}", if m.real[r].is_inverted() { "exclusive" } else { "inclusive" }));
     }
-    let req = format!("is.run {} {} {}", T::NAME, nats(&probes), ops.iter().map(|o| o.token()).collect::<Vec<_>>().join(" "));
+    let req = format!("is.run {} {} {}", T::NAME, nats(&probes), ops[..applied].iter().map(|o| o.token()).collect::<Vec<_>>().join(" "));
     s.case(group, req, if obs.is_empty() { "-".into() } else { obs.join(" | ") });
 }
 
@@ -927,6 +944,11 @@ fn pick_range<T: Dom>(rng: &mut Rng, wide_ok: bool) -> (u32, u32) {
     }
     if rng.chance(1, 40) {
         std::mem::swap(&mut a, &mut b);
+        // a reversed (empty) range that the swap turns into a wide one would materialise / walk
+        // billions of values in the mode where wide ranges are not cheap
+        if !wide_ok && b > a && b - a > 1600 {
+            std::mem::swap(&mut a, &mut b);
+        }
     }
     (a, b)
 }
